@@ -173,7 +173,10 @@ S = "S%d" % MAXREQ
 # ------------------------------------------------------------------------------ generation
 
 class Gen:
-    def __init__(self, ctx, m):
+    def __init__(self, ctx, m, repaired=()):
+        # repaired: receive sites that a two-case probe found to follow the repaired model; only
+        # used to tell the executor how many deliveries to wait for (never for a verdict)
+        self.repaired = set(repaired)
         self.ctx, self.m, self.rng = ctx, m, ctx.rng
         self.quick = ctx.tier == "quick"
         self.cases = []
@@ -405,7 +408,7 @@ class Gen:
         return self.add({"op": "raw_udp", "t": "udp", "fam": "raw_udp", "kind": kind, "_mfix": mfix,
                          "dgrams": [{"from": f, "data": hx(d), "wait_ms": 400 if p is not None else 0} for f, d, p in dgrams],
                          "barrier": hx(barrier), "barrier_resp": hx(bresp),
-                         "expect_deliveries": sum(1 for r in mres if r[0] == "D"),
+                         "expect_deliveries": sum(1 for r in (mfix if "udp" in self.repaired else mres) if r[0] == "D"),
                          "_dgrams": dgrams, "_mres": mres})
 
     def fam_raw_udp(self):
@@ -514,7 +517,7 @@ class Gen:
         mfix = self.m.hrecv(S, declared if not chunked else -1, limited, fixed=True)
         return self.add({"op": "raw_http", "t": t, "fam": "raw_http", "kind": kind, "_mfix": mfix,
                          "chunks": [hx(head + wire)], "close": "write" if declared > len(body) else "", "wait_ms": 3000,
-                         "expect_deliveries": 1 if mres[0] == "D" else 0,
+                         "expect_deliveries": 1 if (mfix if "http" in self.repaired else mres)[0] == "D" else 0,
                          "_declared": declared, "_body": body, "_mres": mres})
 
     def fam_raw_http(self, t):
@@ -1074,7 +1077,18 @@ def run(ctx):
     t2 = time.time()
     m = Model()
     try:
-        cases = Gen(ctx, m).all()
+        # which receive loops does this tree have?  (a hint for waiting times only)
+        probe = Gen(ctx.__class__(ctx.pid, ctx.tier, ctx.seed), m)
+        probe.udp_case([(1, m.umake(20, 1) + b"SECRET-OF-CLIENT-ONE", b"SECRET-OF-CLIENT-ONE"),
+                        (0, m.umake(20, 2) + b"hi", None)], "decl_gt")
+        probe.http_case("http", 20, b"hi", "decl_gt")
+        pobs, _ = run_all(probe.cases, timeout=120)
+        repaired = set()
+        if len((pobs.get(1) or {}).get("delivered", [0, 0])) == 1:
+            repaired.add("udp")
+        if len((pobs.get(2) or {}).get("delivered", [0])) == 0:
+            repaired.add("http")
+        cases = Gen(ctx, m, repaired).all()
         t3 = time.time()
         obs, crashes = run_all(cases, timeout=900 if ctx.tier == "quick" else 3000)
         t4 = time.time()
